@@ -69,6 +69,9 @@ pub enum Ev {
     WriteRestart(bool),
     /// toggle need_time / local_control / device_trouble / config_corrupt
     AppIin(u8),
+    // --- used by C14 only ---
+    DisableC1,
+    Adv(u64),
 }
 
 #[derive(Copy, Clone, Debug, PartialEq, Eq)]
@@ -824,6 +827,8 @@ impl C03 {
 
 pub struct Driver {
     pub sim: OSim,
+    pub last_step: Option<Step>,
+    pub last_sent: Option<Vec<u8>>,
     pub ledger: Ledger,
     pub last_seq: u8,
     pub updates: [u64; 4],
@@ -902,6 +907,12 @@ impl Driver {
                 sent = Some(app::confirm(seq, true));
             }
             Ev::Timeout => self.sim.advance(TO),
+            Ev::Adv(ms) => self.sim.advance(*ms),
+            Ev::DisableC1 => {
+                sent = Some(app::request(next_seq(&mut self.last_seq), fc::DISABLE_UNSOLICITED, &app::hdr_all(60, 2)));
+                new_request = true;
+                disable = Some(self.last_seq);
+            }
             Ev::Disable => {
                 sent = Some(app::request(
                     next_seq(&mut self.last_seq),
@@ -984,6 +995,8 @@ impl Driver {
         // (none can be active then) and selection applies when it is answered
         let v = self.ledger.observe(&step, confirm, new_request, disable, reconnect, selected);
         res.model_states.push(self.ledger.key(step.now));
+        self.last_step = Some(step);
+        self.last_sent = sent;
         v
     }
 
@@ -1032,6 +1045,13 @@ pub fn start_with_iin(cfg: &OCfg, unsol: bool, cto: bool) -> Driver {
     d
 }
 
+/// no start-up prefix: the outstation has just been created (C14 explores the start-up rules)
+pub fn start_raw(cfg: &OCfg, cto: bool) -> Driver {
+    let mut sim = OSim::new(cfg, 1);
+    setup_db(&mut sim, cto);
+    Driver { sim, last_step: None, last_sent: None, ledger: Ledger::default(), last_seq: 0, updates: [0; 4], sol_expected: 0, uns_expected: 0 }
+}
+
 pub fn start(cfg: &OCfg, unsol: bool, cto: bool) -> Driver {
     let mut sim = OSim::new(cfg, 1);
     setup_db(&mut sim, cto);
@@ -1043,7 +1063,7 @@ pub fn start(cfg: &OCfg, unsol: bool, cto: bool) -> Driver {
     }
     sim.take_out();
     sim.take_cb();
-    Driver { sim, ledger: Ledger::default(), last_seq, updates: [0; 4], sol_expected: 0, uns_expected: 0 }
+    Driver { sim, last_step: None, last_sent: None, ledger: Ledger::default(), last_seq, updates: [0; 4], sol_expected: 0, uns_expected: 0 }
 }
 
 impl Scenario for C03 {
